@@ -48,6 +48,10 @@ SETS = {
     'd2': (lambda: [(1, 0), (0, 1)],         [1.0, 0.0],   'dense actions'),
     'p2': (lambda: [{'a': 1}, {'b': 2}],     {'x': 1},     'sparse actions'),
 }
+# int-valued stand-ins (disjoint from everything, like the sets they replace) used only to classify a violation:
+# does it need the action type?
+SETS.update({'j2': (lambda: [4, 5], [1.0, 0.0], 'int actions'), 'k2': (lambda: [6, 7], {'x': 1}, 'int actions'), 'j1': (lambda: [8], 'c', 'int actions')})
+SUBST = {'d2': 'j2', 'p2': 'k2', 's1': 'j1'}
 SET_SIZE = {'i2': 2, 'i3': 3, 's1': 1, 'd2': 2, 'p2': 2}
 ALL_SETS = ['i2', 'i3', 's1', 'd2', 'p2']
 REWARDS = [0, 0.5, 1]
@@ -217,7 +221,7 @@ def do_step(L, d, op, rec=None, probe=False):
     ctx = fresh(ctx)
     fam = family(d)
     corral = is_corral(d)
-    K = lambda m, f=kind: f'{fam}|{m}|{f}'
+    K = lambda m, f='': (fam, m, f)
     p_bars = list(L._p_bars) if (corral and rec is not None) else None
 
     # -- predict
@@ -310,11 +314,40 @@ def checked_step(L, d, op, probe=False):
     try:
         do_step(L, d, op, rec, probe)
     except StepTimeout:
-        rec.v(f"{family(d)}|step does not return within the horizon|learn mode {op[2]}",
+        rec.v((family(d), 'step does not return within the horizon', f'learn mode {op[2]}'),
               f'predict/learn on {op!r} used more than {STEP_CPU_HORIZON}s of CPU time')
     finally:
         signal.setitimer(signal.ITIMER_VIRTUAL, 0)
     return rec
+
+
+def violates(d, hist, fam_mode):
+    """Does the (checked) history violate with the same component and failure mode?"""
+    L = build(d)
+    for op in hist:
+        rec = checked_step(L, d, op, probe=(op[2] == 'probe'))
+        if any(k[:2] == fam_mode for k, _ in rec.violations): return True
+        if rec.dead: return False
+    return False
+
+
+def final_key(d, hist, k):
+    """component|failure mode|minimal discriminating feature.  The feature is found by re-running two simplified variants
+    of the violating history: (1) non-int action sets replaced by equally sized, equally disjoint int sets - if it still
+    fails the action type is not needed; (2) every step on the action set of the failing step - if it still fails a change
+    of the action set is not needed."""
+    fam, mode, feat = k
+    hist = [tuple(o) for o in hist]
+    last = hist[-1][0]
+    kind = SETS[last][2]
+    if any(o[0] in SUBST for o in hist):
+        if violates(d, [(SUBST.get(o[0], o[0]),) + o[1:] for o in hist], (fam, mode)): kind = 'any action type'
+    elif kind == 'int actions':
+        kind = 'any action type'
+    shape = 'fixed action set'
+    if any(o[0] != last for o in hist):
+        if not violates(d, [(last,) + o[1:] for o in hist], (fam, mode)): shape = 'changed action set'
+    return f"{fam}|{mode}|{'; '.join(([feat] if feat else []) + [shape, kind])}"
 
 
 # ------------------------------------------------------------------------------------------------ the check
@@ -426,8 +459,8 @@ class C16(Check):
                 acc.transitions += 1; acc.traces += 1
                 h2 = hist + (op,)
                 if rec.outcome is not None: acc.outcome(rec.outcome)
-                for key, what in rec.violations:
-                    acc.violation(key, what, {'learner': d, 'history': [list(o) for o in h2]}, order=(len(h2), acc._cur[0], acc._order))
+                for k, what in rec.violations:
+                    acc.violation(final_key(d, h2, k), what, {'learner': d, 'history': [list(o) for o in h2]}, order=(len(h2), acc._cur[0], acc._order))
                     acc._order += 1
                 if rec.dead: continue
                 c2 = canon(L)
@@ -439,9 +472,10 @@ class C16(Check):
                 else:
                     # leaf: the learner must still be able to predict (same action set)
                     rec = checked_step(L, d, op, probe=True)
-                    for key, what in rec.violations:
-                        acc.violation(key, what, {'learner': d, 'history': [list(o) for o in h2] + [[op[0], None, 'probe']]},
-                                      order=(len(h2) + 1, acc._cur[0], acc._order))
+                    for k, what in rec.violations:
+                        hp = h2 + ((op[0], None, 'probe'),)
+                        acc.violation(final_key(d, hp, k), what, {'learner': d, 'history': [list(o) for o in hp]},
+                                      order=(len(hp), acc._cur[0], acc._order))
                         acc._order += 1
         acc.count('states_' + fam, len(seen))
         acc.count(f"transitions_{fam}_{'fixed' if len(case['sets']) == 1 else 'changing'}_set", acc.transitions - t0)
@@ -455,7 +489,7 @@ class C16(Check):
             probe = op[2] == 'probe'
             rec = checked_step(L, d, op, probe=probe)
             acc.transitions += 1
-            for key, what in rec.violations: acc.violation(key, what, w)
+            for k, what in rec.violations: acc.violation(final_key(d, hist[:i + 1], k), what, w)
             if rec.dead: break
 
     def replay(self, witness, acc):
